@@ -7,9 +7,22 @@ from core.run import Acc, finish, rng_for, run_shards, NCPU
 PID = "C16"
 RULE = ("ground truth: the 878 constants of /repo/db/*.bin.gz decoded by the harness as generic CBOR. For every constant whose words are "
         "typeable as one phrase (word class of the lexer, not `to`, not starting with a digit) the phrase and its permutations (all orders "
-        "for <=3 words, 6 random orders otherwise) are evaluated with descriptions on: exactly one Ok result, exactly one description, "
+        "for <=3 words; otherwise reversed, all rotations, every word moved to the end / to the front, and 6 random orders) are evaluated, per "
+        "constant on 16 databases and once more on ONE database with all phrases sorted so that near-duplicates are adjacent; they are evaluated with descriptions on: exactly one Ok result, exactly one description, "
         "whose constant carries ALL query words among its tokens, has value, unit, description, and a source id that Db::get_source "
         "resolves. Untypeable constants are listed, not judged. non-trivial = distinct (constant, word order) query")
+
+def more_orders(toks):
+    """Systematic orders for phrases of more than three words: reversed, all rotations, every word moved to the end and to the front."""
+    toks = list(toks)
+    out = [tuple(reversed(toks))]
+    for i in range(1, len(toks)):
+        out.append(tuple(toks[i:] + toks[:i]))
+    for i in range(len(toks)):
+        rest = toks[:i] + toks[i + 1:]
+        out.append(tuple(rest + [toks[i]]))
+        out.append(tuple([toks[i]] + rest))
+    return out
 
 def shard(p):
     acc = Acc()
@@ -33,6 +46,7 @@ def shard(p):
             if len(toks) <= 3:
                 orders = list(itertools.permutations(toks))
             else:
+                orders += more_orders(toks)
                 for _ in range(6):
                     o = list(toks)
                     rng.shuffle(o)
@@ -45,6 +59,13 @@ def shard(p):
                 q = " ".join(o)
                 reqs.append({"op": "query", "q": q, "describe": True})
                 meta.append((f, q, o == tuple(toks)))
+        if p.get("adjacent"):
+            # near-duplicate phrases next to each other, ascending and then descending: anything the database remembers from one
+            # lookup to the next (a memo keyed on a prefix, a case fold or a hash of the phrase; seeds C16-c, C14-c) is asked the
+            # most confusable question right afterwards
+            order = sorted(range(len(reqs)), key=lambda i: meta[i][1])
+            order = order + order[::-1]
+            reqs, meta = [reqs[i] for i in order], [meta[i] for i in order]
         for i in range(0, len(reqs), 2000):
             try:
                 reps = d.call_many(reqs[i:i + 2000], timeout=600)
@@ -52,11 +73,14 @@ def shard(p):
                 acc.inconc("driver: %r" % (ex,))
                 d.restart()
                 continue
-            for (f, q, own_order), rep in zip(meta[i:i + 2000], reps):
+            for j, ((f, q, own_order), rep) in enumerate(zip(meta[i:i + 2000], reps)):
                 acc.evaluations += 1
                 acc.nontriv(q)
                 acc.count("own_order" if own_order else "permuted_order")
-                case = {"query": q, "fact": f["description"], "fact_tokens": f["tokens"], "session": p.get("label", "in-memory")}
+                if p.get("adjacent"):
+                    acc.count("adjacent_session_queries")
+                case = {"query": q, "fact": f["description"], "fact_tokens": f["tokens"], "session": p.get("label", "in-memory"),
+                        "preceded_by": [m[1] for m in meta[max(0, i + j - 3):i + j]]}
                 if "panic" in rep:
                     acc.violate("c16:panic:" + str(rep.get("panic_loc")), "%r panicked: %s" % (q, rep["panic"]), dict(case, observed=rep["panic"]))
                     continue
@@ -107,6 +131,8 @@ def run(tier, seed):
     acc.counters["untypeable_constants_listed_not_judged"] = len(un)
     slim = [{"tokens": f["tokens"], "description": f["description"], "source": f["source"]} for f in ty]
     payloads = [{"seed": seed, "shard": i, "facts": slim[i::NCPU], "bin": bins["dbg"]} for i in range(NCPU)]
+    # one more session on a single database object: every (constant, order) query, sorted so that near-duplicates are adjacent
+    payloads.append({"seed": seed, "shard": 77, "facts": slim, "bin": bins["dbg"], "adjacent": True, "label": "one Db, phrases sorted (ascending, then descending)"})
     tmp = None
     if tier == "thorough":
         for b in range(4):
@@ -130,6 +156,8 @@ def replay(path):
     v = json.load(open(path))
     c = v["case"]
     with Driver(build.build("dbg")["vdriver"]) as d:
+        for q0 in c.get("preceded_by", []):
+            d.call({"op": "query", "q": q0, "describe": True})
         rep = d.call({"op": "query", "q": c["query"], "describe": True})
     print(json.dumps({"query": c["query"], "fact": c["fact"], "now": {"items": rep.get("items"), "descs": [x["description"] for x in rep.get("descs", [])]}}, ensure_ascii=False))
     return 0
